@@ -167,9 +167,13 @@ pub fn create_dir_all<P: AsRef<Path>>(path: P) -> Result<()> {
 
         // Create from root down
         for dir in to_create.into_iter().rev() {
-            // Skip if it already exists (as file or dir)
-            if ctx.fs.dir_exists(&dir) || ctx.fs.file_exists(&dir) {
+            // Skip if it already exists as a directory
+            if ctx.fs.dir_exists(&dir) {
                 continue;
+            }
+            // A regular file in the way is an error, as for `mkdir -p`
+            if ctx.fs.file_exists(&dir) {
+                return Err(fs_error("File exists"));
             }
             ctx.fs.mkdir(&dir, ctx.now).map_err(fs_error)?;
         }
